@@ -176,6 +176,11 @@ func (g *gen) hashLit() string {
 				k = []string{`"a"`, `"b"`, `"c"`, `"k"`, `"zz"`, `7`, `8`, `9`, `2.5`, `"m"`}[(g.c.Intn(3)+i*3)%10]
 			}
 		}
+		if g.cfg.TieKeys && g.c.Intn(8) == 1 {
+			// a key computed from a nested hash literal: the compiler orders
+			// the pairs by the printed form of the key expression
+			k = fmt.Sprintf("len({\"p\": %d, \"q\": 2, \"r\": %d})", i, i+1)
+		}
 		parts = append(parts, fmt.Sprintf("%s: %s", k, g.intAtom()))
 	}
 	return "{" + strings.Join(parts, ", ") + "}"
